@@ -8,6 +8,8 @@ From PowHsm Require Import Proofs.C05.
 From PowHsm Require Import Proofs.C01.
 From PowHsm Require Import Gen.Src.
 From PowHsm Require Import Proofs.SrcEquivDongle.
+From PowHsm Require Import Gen.SrcM.
+From PowHsm Require Import Proofs.SrcEquivDongleM.
 Open Scope N_scope.
 
 (* for every request and every device script, sign answers only codes docs/protocol.md lists for sign plus the generic ones (closed check on the generated tables vs the generated doc lists) *)
@@ -222,5 +224,14 @@ Theorem C04_source_user_defined_range :
          src__Error__is_user_defined_error (VInt (Z.of_N sw)) = POk (VBool true) <->
          27040 <= sw <= 27647 \/ sw = 27904.
 Proof. exact (@src_is_user_defined_true_iff). Qed.
+
+(* TIE BY TRANSLATION (device monad): the status-word-to-result mapping of sign_unauthorized as written in the source is the model's, on every world *)
+Theorem C04_source_sign_unauthorized_is_model :
+  forall (cm : string -> pv -> list pv -> pr pv) (self key_id : pv) 
+           (path_bin : bytes) (hash : str) (w : world),
+         cm "to_binary" key_id [] = POk (VBytes path_bin) ->
+         srcm_HSM2Dongle__sign_unauthorized cm self key_id (VStr hash) w =
+         mres sign_res (sign_unauthorized path_bin (fromhex hash) w).
+Proof. exact (@srcm_sign_unauthorized_ok). Qed.
 
 Example C04_nonvacuous : True. Proof. exact I. Qed. (* concrete runs closed by vm_compute in Proofs/C04.v: blockchainState on Status 0x6B87 / silent device / bad opcode / 0x6F00 answers -905; sign on ERR_SIGN_INVALID_PATH answers -103; ex_error_result_escapes_* exhibit the reconnection-bring-up observation recorded in DESIGN.md *)
